@@ -5,6 +5,11 @@ import os
 ROOT = os.path.dirname(os.path.dirname(os.path.abspath(__file__)))
 
 CHECKS = {
+ "C15": dict(
+    text="Partial. Theorems over the client transition system (pool of m connections with at most one request in flight each, per-connection server answer stream, overflow queue, hand-over on release): C15_fulfilled_only_with_own_response, C15_settled_at_most_once (a settled outcome never changes, whatever follows), C15_answer_fulfils, C15_timeout_rejects, C15_connection_limit, for every history of issue/response/time-out/server-close events; C15_refuted_without_close_on_timeout exhibits the 4-event history on which the pinned behaviour fulfils request 1 with the answer to request 0. Tied to /repo by Http::Client (1-3 threads, 1-4 connections) against a scripted raw server (immediate, delayed, dribbled, chunked, closing, never, late answers; two waves; more requests than connections) compared per request with the model run on the same timed history. Residue: thread interleavings inside the client are those the OS produces; timers and sockets are the oracle; simultaneous connections are bounded through the total the server accepts.",
+    note="Closed under the global context. Trusted: harness/h_client.cc (scripted server, margins), the timed-event replay in ocaml/driver.ml (client_case).",
+    technique="Coq proof (invariant over client event histories, refutation of the pre-fix behaviour) + differential correspondence against a scripted live server",
+    design="§2 C15"),
  "C08": dict(
     text="Partial. Theorems C08_callback_grammar (for every history of accept/data/EOF/error/idle-time-out/write-failure events and every descriptor, the callbacks follow (connection input* disconnection release)* and the peer table holds exactly the descriptors still connected), C08_every_prefix_well_formed, C08_once_each (disconnections = releases = connections, +1 while open), C08_no_peer_left, C08_peer_table_has_no_duplicates, by induction over event histories of the worker's transition system. Tied to /repo by live listeners (raw Tcp::Handler and Http::Endpoint with 600 ms time-outs, 1-3 workers, 1-12 concurrent clients per round, up to 30 rounds) whose per-peer callback logs, callbacks-after-disconnection count and /proc/self/fd delta against the idle baseline are compared with the model's log of the same history. Residue: descriptor release is observed through /proc/self/fd, epoll interest and close() are not instrumented; kernel event delivery is the oracle.",
     note="Closed under the global context. Trusted: harness/h_lifecycle.cc, the behaviour->event translation in ocaml/driver.ml (lifecycle_case).",
